@@ -130,10 +130,15 @@ func TestC14Packages(t *testing.T) {
 	}, func(rt *rapid.T) {
 		sc := genPackageWorld(rt, "C14", false, []string{"EachObject", "EachObject", ""})
 		sc.Part = "packages"
+		// the package controller's cached reads may not show ObjectSets created a moment ago (until a "sync" step)
+		sc.Lag = rapid.IntRange(0, 2).Draw(rt, "lag") == 0
 		// sprinkle slice-name squatting and history pruning so dropped slices get collected
 		var steps []Step
 		for i, s := range sc.Steps {
 			steps = append(steps, s)
+			if sc.Lag && rapid.IntRange(0, 5).Draw(rt, "sync") == 0 {
+				steps = append(steps, Step{Op: "sync"})
+			}
 			if i > 3 && rapid.IntRange(0, 7).Draw(rt, "squat") == 0 {
 				steps = append(steps, Step{Op: "tpSquatSlice", I: rapid.IntRange(0, 5).Draw(rt, "which")})
 			}
